@@ -513,6 +513,29 @@ pub fn handwritten_typed() -> Vec<(String, Packet)> {
         let _ = m.insert(Vehicle::Mod(id));
         out.push((format!("MAL with mod id {id:#010x}"), Packet::Mal(m)));
     }
+    // ObjectInfo is one struct carried by three kinds (AXM list elements, JRR start position, UCO object) whose
+    // readers may treat it according to the packet's action: every flags byte x the object indices the protocol
+    // documents as special (and a few ordinary ones) x every action, built here and not obtained from the decoder
+    {
+        let indices = [0u8, 1, 48, 149, 160, 240, 252, 253, 254, 255];
+        for flags in 0..=255u8 {
+            for index in indices {
+                let info = ObjectInfo { x: -3, y: 700, z: 9, flags, index, heading: 0x81 };
+                for a in [UcoAction::CircleEnter, UcoAction::CircleLeave, UcoAction::CpFwd, UcoAction::CpRev] {
+                    out.push((format!("UCO {a:?} object index {index} flags {flags:#04x}"), Packet::Uco(Uco { reqi: RequestId(0), plid: PlayerId(3), ucoaction: a, time: Duration::from_millis(1230), c: CarContact::default(), info: info.clone() })));
+                }
+                for a in [JrrAction::Reject, JrrAction::Spawn, JrrAction::Reset, JrrAction::ResetNoRepair] {
+                    out.push((format!("JRR {a:?} start position index {index} flags {flags:#04x}"), Packet::Jrr(Jrr { reqi: RequestId(1), plid: PlayerId(3), ucid: ConnectionId(2), jrraction: a, startpos: info.clone() })));
+                }
+                if flags % 5 == 0 || flags >= 0x80 && flags % 3 == 0 {
+                    for a in [PmoAction::LoadingFile, PmoAction::AddObjects, PmoAction::DelObjects, PmoAction::ClearAll, PmoAction::TinyAxm, PmoAction::TtcSel, PmoAction::Selection, PmoAction::Position, PmoAction::GetZ] {
+                        let other = ObjectInfo { x: 1, y: 2, z: 3, flags: !flags, index: 255 - index, heading: 4 };
+                        out.push((format!("AXM {a:?} object index {index} flags {flags:#04x}"), Packet::Axm(Axm { reqi: RequestId(1), ucid: ConnectionId(2), pmoaction: a, pmoflags: PmoFlags::default(), info: vec![other, info.clone()] })));
+                    }
+                }
+            }
+        }
+    }
     // Mso with multi-codepage name/text and textstart on a character boundary
     for (name, text) in [
         ("abc", "hello"),
